@@ -72,12 +72,41 @@ def check(ctx, src):
 
     # --- run-time / macro name sites ------------------------------------------------------------
     def has_mangle_of(func, argname_pred, what, mod, wit):
-        found = None
-        for c in pyq.calls(func):
-            if dotted(c.func) in ("mangle", "hy.mangle") and c.args and argname_pred(c.args[0]):
-                found = c
-        ctx.check(found is not None, "R-ID-MANGLE-RT", f"{mod.rel}|{mod.qual_of(func)}|{what}", f"{what}: the name is not passed through mangle()", mod.rel, func.lineno,
-                  witness=wit, detail=norm(found) if found else "")
+        """The value picked by argname_pred is passed through mangle() in func - or in a helper of the same module that
+        func forwards it to (followed two levels deep).  Not finding the value at all is 'not recognised', not a violation."""
+        def search(f, pred, depth):
+            seen_value = False
+            for n in ast.walk(f):
+                if isinstance(n, ast.expr) and pred(n):
+                    seen_value = True
+            for c in pyq.calls(f):
+                if dotted(c.func) in ("mangle", "hy.mangle") and c.args and pred(c.args[0]):
+                    return c, True
+            if depth < 2:
+                for c in pyq.calls(f):
+                    idx = next((i for i, a in enumerate(c.args) if pred(a)), None)
+                    if idx is None:
+                        continue
+                    d = dotted(c.func) or ""
+                    callee = None
+                    if d.startswith("self.") and d.count(".") == 1:
+                        cls = mod.qual_of(f).rsplit(".", 1)[0] if "." in mod.qual_of(f) else None
+                        callee = mod.func(f"{cls}.{d[5:]}") if cls else None
+                        skip = 1
+                    elif d and "." not in d:
+                        callee = mod.func(d)
+                        skip = 0
+                    if callee is not None and len(callee.args.args) > idx + skip:
+                        pname = callee.args.args[idx + skip].arg
+                        hit, _ = search(callee, lambda a, pn=pname: isinstance(a, ast.Name) and a.id == pn, depth + 1)
+                        if hit is not None:
+                            return hit, True
+            return None, seen_value
+
+        found, seen_value = search(func, argname_pred, 0)
+        verdict = True if found is not None else (False if seen_value else None)
+        ctx.decide("R-ID-MANGLE-RT", f"{mod.rel}|{mod.qual_of(func)}|{what}", verdict, f"{what}: the name is not passed through mangle()", mod.rel, func.lineno,
+                   witness=wit, detail=norm(found) if found else "")
 
     im = comp.mc.func("install_macro")
     ctx.require(im is not None, "install_macro not found")
